@@ -957,7 +957,15 @@ class Dict(dict, base.Symbolic, pg_typing.CustomTyping):
                 path,
             )
         )
-      if self._allow_partial == allow_partial:
+      if (isinstance(value_spec, pg_typing.Dict)
+          and value_spec.schema is not None
+          and value_spec != self._value_spec):
+        # Compatible but not identical (`is_compatible` does not look at
+        # frozen values, list sizes or regular expressions): the dict is now
+        # governed by the field's spec and validated against it.
+        self._value_spec = value_spec
+        self._allow_partial = allow_partial
+      elif self._allow_partial == allow_partial:
         proceed_with_standard_apply = False
       else:
         self._allow_partial = allow_partial
